@@ -125,6 +125,7 @@ func main() {
 		}
 	}
 	eng.resolveSentinels()
+	eng.expandMapDesignators()
 	if *knownFile != "" {
 		if data, err := os.ReadFile(*knownFile); err == nil {
 			if err := json.Unmarshal(data, &eng.known); err != nil {
@@ -399,6 +400,62 @@ func pkgOfKey(k string) string {
 		return k[:sl+1+i]
 	}
 	return ""
+}
+
+// expandMapDesignators rewrites the frame designator `maps[K]V` (K a named type written alias.Name, V one of []byte, string,
+// bool, int, uint64 or a named type) -- "the contents of maps of this Go type" -- into the heap kinds of such maps.
+func (e *Engine) expandMapDesignators() {
+	typeOf := func(name string) types.Type {
+		switch name {
+		case "[]byte":
+			return types.NewSlice(types.Typ[types.Byte])
+		case "string":
+			return types.Typ[types.String]
+		case "bool":
+			return types.Typ[types.Bool]
+		case "int":
+			return types.Typ[types.Int]
+		case "uint64":
+			return types.Typ[types.Uint64]
+		}
+		q := e.specs.qualifyPattern(name)
+		i := strings.LastIndex(q, ".")
+		if i < 0 {
+			return nil
+		}
+		p := e.pkgs[q[:i]]
+		if p == nil {
+			return nil
+		}
+		if t, ok := p.Members[q[i+1:]].(*ssa.Type); ok {
+			return t.Type()
+		}
+		return nil
+	}
+	for _, c := range e.specs.Contracts {
+		for _, list := range []*[]string{&c.Modifies, &c.GhostMod} {
+			var out []string
+			for _, m := range *list {
+				if !strings.HasPrefix(m, "maps[") {
+					out = append(out, m)
+					continue
+				}
+				j := strings.Index(m, "]")
+				if j < 0 {
+					e.errorf("%s: modifies %q: want maps[K]V", c.Key, m)
+					continue
+				}
+				kt, vt := typeOf(strings.TrimSpace(m[5:j])), typeOf(strings.TrimSpace(m[j+1:]))
+				if kt == nil || vt == nil {
+					e.errorf("%s: modifies %q: unknown key or element type", c.Key, m)
+					continue
+				}
+				ks, vs := e.reg.sortOf(kt), e.reg.sortOf(vt)
+				out = append(out, "key:"+e.keyMapP(ks, vs), "key:"+e.keyMapV(ks, vs))
+			}
+			*list = out
+		}
+	}
 }
 
 // resolveSentinels maps sentinel names to global heap keys.
